@@ -94,6 +94,19 @@ CHECKS = {
              'framework-supplied Content-Type on 204/304 and one elsewhere, close() exactly once after streaming began.',
         note='With media set, preset Content-Types are limited to ones a default handler serves; SSE is generated alone; '
              'after a fault the delivered bytes must be a prefix of the expected body (no final event demanded).'),
+    'C12': dict(
+        level='exploration', ref='DESIGN.md section 4 (C12)',
+        technique=TECH + 'seeded documents round-tripped through the real response and request paths under seeded body '
+                  'chunkings/delivery timing; truncation (early EOF / http.disconnect) and single-byte corruption swept '
+                  'over positions; stream-access counter sampled around every get_media()/media access',
+        text='Seeded exploration with a fault sweep: a generated JSON document or form mapping is serialized via resp.media '
+             'on a real app, the bytes are sent back (chunked, delayed, truncated, corrupted or empty) and a history of '
+             '<=5 get_media()/get_media(default_when_empty=)/media accesses runs in the responder. Oracles: strict '
+             'round-trip equality, later calls return the same object / re-raise the same error instance without any '
+             'further receive()/read on the stream, empty-body semantics incl. uncached defaults, undecodable bodies give '
+             'the 400-class MediaMalformedError (and a 400 response when unhandled), on WSGI and ASGI.',
+        note='wsgi.input returns a requested read in full (buffered semantics) in this check; documents exclude lone '
+             'surrogates, NaN/Inf and a top-level null; a truncated body that is itself a valid document may parse.'),
 }
 
 NOT_YET = {p: 'claimed in DESIGN.md; check under construction in this round (not yet registered)' for p in
